@@ -140,3 +140,93 @@ def parse_lead(f):
         return None
     hlen, o2 = r
     return {"ht": ht, "hlen": hlen, "dloc": o2, "lead": o2 + DSIZE[ht]}
+
+
+def build_file(chunks, ht=1, cht=3, flags=0, dict_chunk=b"", detached=False, uflag_digests=False):
+    """complete uncompressed (comp type 0) zchunk file from chunk payloads; entry 0 is the
+    dictionary chunk (empty by default: zero digest, sizes 0)"""
+    ds = DSIZE[cht]
+    entries, body = [], b""
+    allc = [dict_chunk] + list(chunks)
+    for k, c in enumerate(allc):
+        if k == 0 and len(c) == 0:
+            dg = bytes(ds)
+        else:
+            dg = H(cht, c)
+        ud = H(cht, c) if (flags & 4) else None
+        if flags & 4 and k == 0 and len(c) == 0:
+            ud = bytes(ds)
+        entries.append((dg, ud, len(c), len(c)))
+        body += c
+    h = Hdr(ht=ht, cht=cht, flags=flags, comp=0, chunks=entries, detached=detached)
+    h.ddigest = bytes(DSIZE[ht]) if (flags & 4) else H(ht, body)
+    return h.build() + (b"" if detached else body), h
+
+
+def parse_file(f):
+    """parse a well-formed file into (Hdr, body); None if it is not well-formed"""
+    l = parse_lead(f)
+    if l is None or len(f) < l["lead"] + l["hlen"]:
+        return None
+    ht, ds = l["ht"], DSIZE[l["ht"]]
+    hdr = f[l["lead"]:l["lead"] + l["hlen"]]
+    o = 0
+    ddg = hdr[o:o + ds]; o += ds
+    r = ci_decode(hdr, o)
+    if r is None:
+        return None
+    flags, o = r
+    r = ci_decode(hdr, o)
+    if r is None:
+        return None
+    comp, o = r
+    opts = []
+    if flags & 2:
+        r = ci_decode(hdr, o)
+        if r is None:
+            return None
+        oc, o = r
+        for _ in range(oc):
+            r = ci_decode(hdr, o)
+            if r is None:
+                return None
+            oid, o = r
+            r = ci_decode(hdr, o)
+            if r is None:
+                return None
+            osz, o = r
+            opts.append((oid, hdr[o:o + osz])); o += osz
+    r = ci_decode(hdr, o)
+    if r is None:
+        return None
+    isz, o = r
+    idx_end = o + isz
+    r = ci_decode(hdr, o)
+    if r is None:
+        return None
+    cht, o = r
+    if cht not in DSIZE:
+        return None
+    r = ci_decode(hdr, o)
+    if r is None:
+        return None
+    count, o = r
+    cds = DSIZE[cht]
+    chunks = []
+    while o < idx_end:
+        dg = hdr[o:o + cds]; o += cds
+        ud = None
+        if flags & 4:
+            ud = hdr[o:o + cds]; o += cds
+        r = ci_decode(hdr, o)
+        if r is None:
+            return None
+        clen, o = r
+        r = ci_decode(hdr, o)
+        if r is None:
+            return None
+        ulen, o = r
+        chunks.append((dg, ud, clen, ulen))
+    h = Hdr(ht=ht, cht=cht, flags=flags, comp=comp, chunks=chunks, opts=opts, detached=f[:5] == b"\0ZHR1")
+    h.ddigest = ddg
+    return h, f[l["lead"] + l["hlen"]:]
